@@ -133,7 +133,7 @@ impl<T, N: ArrayLength> GenericArrayIter<T, N> {
     }
     proof fn reach_len(self) requires self.wf(), { assert(false); } /*OB:canary.len:*/
 
-    // extracted from src/iter.rs:133  `fn size_hint(&self) -> (usize, Option<usize>)`
+    // extracted from src/iter.rs:140  `fn size_hint(&self) -> (usize, Option<usize>)`
     fn size_hint(&self) -> (r: (usize, Option<usize>))
         requires
             self.wf(),
@@ -145,7 +145,7 @@ impl<T, N: ArrayLength> GenericArrayIter<T, N> {
     }
     proof fn reach_size_hint(self) requires self.wf(), { assert(false); } /*OB:canary.size_hint:*/
 
-    // extracted from src/iter.rs:87  `fn next(&mut self) -> Option<T>`
+    // extracted from src/iter.rs:92  `fn next(&mut self) -> Option<T>`
     fn next(&mut self) -> (r: Option<T>)
         requires
             old(self).wf(),
@@ -174,7 +174,7 @@ impl<T, N: ArrayLength> GenericArrayIter<T, N> {
     }
     proof fn reach_next(self) requires self.wf(), { assert(false); } /*OB:canary.next:*/
 
-    // extracted from src/iter.rs:175  `fn next_back(&mut self) -> Option<T>`
+    // extracted from src/iter.rs:174  `fn next_back(&mut self) -> Option<T>`
     fn next_back(&mut self) -> (r: Option<T>)
         requires
             old(self).wf(),
@@ -202,7 +202,7 @@ impl<T, N: ArrayLength> GenericArrayIter<T, N> {
     }
     proof fn reach_next_back(self) requires self.wf(), { assert(false); } /*OB:canary.next_back:*/
 
-    // extracted from src/iter.rs:152  `fn nth(&mut self, n: usize) -> Option<T>`
+    // extracted from src/iter.rs:150  `fn nth(&mut self, n: usize) -> Option<T>`
     fn nth(&mut self, n: usize) -> (r: Option<T>)
         requires
             old(self).wf(),
@@ -218,7 +218,7 @@ impl<T, N: ArrayLength> GenericArrayIter<T, N> {
             {
                 self.array.drop_range(index, next_index);
                 proof {
-                    assert(self.wf()) /*OB:nth.unwind@drop_in_place:C05*/;
+                    assert(self.wf()) /*OB:nth.unwind@drop_in_place:C05,C06*/;
                 }
             }
             proof {
@@ -253,7 +253,7 @@ impl<T, N: ArrayLength> GenericArrayIter<T, N> {
             {
                 self.array.drop_range(next_back, index_back);
                 proof {
-                    assert(self.wf()) /*OB:nth_back.unwind@drop_in_place:C05*/;
+                    assert(self.wf()) /*OB:nth_back.unwind@drop_in_place:C05,C06*/;
                 }
             }
             proof {
@@ -272,7 +272,7 @@ impl<T, N: ArrayLength> GenericArrayIter<T, N> {
     }
     proof fn reach_nth_back(self, n: usize) requires self.wf(), { assert(false); } /*OB:canary.nth_back:*/
 
-    // extracted from src/iter.rs:20  `fn as_slice(&self) -> &[T]`
+    // extracted from src/iter.rs:21  `fn as_slice(&self) -> &[T]`
     fn as_slice(&self) -> (r: SliceRange)
         requires
             self.wf(),
@@ -285,7 +285,7 @@ impl<T, N: ArrayLength> GenericArrayIter<T, N> {
     }
     proof fn reach_as_slice(self) requires self.wf(), { assert(false); } /*OB:canary.as_slice:*/
 
-    // extracted from src/iter.rs:25  `fn as_mut_slice(&mut self) -> &mut [T]`
+    // extracted from src/iter.rs:28  `fn as_mut_slice(&mut self) -> &mut [T]`
     fn as_mut_slice(&mut self) -> (r: SliceRange)
         requires
             old(self).wf(),
@@ -298,7 +298,7 @@ impl<T, N: ArrayLength> GenericArrayIter<T, N> {
     }
     proof fn reach_as_mut_slice(self) requires self.wf(), { assert(false); } /*OB:canary.as_mut_slice:*/
 
-    // extracted from src/iter.rs:54  `fn drop(&mut self)`
+    // extracted from src/iter.rs:58  `fn drop(&mut self)`
     fn drop_impl(&mut self)
         requires
             old(self).wf(),
@@ -313,25 +313,24 @@ impl<T, N: ArrayLength> GenericArrayIter<T, N> {
     }
     proof fn reach_drop_impl(self) requires self.wf(), { assert(false); } /*OB:canary.drop_impl:*/
 
-    // extracted from src/iter.rs:138  `fn count(mut self) -> usize`
-    fn count(self) -> (r: usize)
+    // extracted from src/iter.rs:146  `fn count(self) -> usize`
+    fn count(self) -> (r: (usize, Self))
         requires
             self.wf(),
         ensures
-            r == self.remaining().len(), /*OB:count.post.count:C06*/
+            r.0 == self.remaining().len(), /*OB:count.post.count:C06*/
+            r.1.array.ok() && r.1.array.all_dead(), /*OB:count.post.dropped:C03,C05*/
     {
         let mut this = self;
-        let len = this.len();
-        {
-            let __s = this.as_mut_slice();
-            this.array.drop_range(__s.lo, __s.hi);
-        }
-        this.array.forget();
-        len
+        let __ret = {
+            this.len()
+        };
+        this.drop_impl();
+        (__ret, this)
     }
     proof fn reach_count(self) requires self.wf(), { assert(false); } /*OB:canary.count:*/
 
-    // extracted from src/iter.rs:167  `fn last(mut self) -> Option<T>`
+    // extracted from src/iter.rs:166  `fn last(mut self) -> Option<T>`
     fn last(self) -> (r: (Option<T>, Self))
         requires
             self.wf(),
@@ -349,7 +348,7 @@ impl<T, N: ArrayLength> GenericArrayIter<T, N> {
     }
     proof fn reach_last(self) requires self.wf(), { assert(false); } /*OB:canary.last:*/
 
-    // extracted from src/iter.rs:99  `fn fold<B, F>(mut self, init: B, mut f: F) -> B where F: FnMut(B, Self::Item) -> B,`
+    // extracted from src/iter.rs:105  `fn fold<B, F>(mut self, init: B, mut f: F) -> B where F: FnMut(B, Self::Item) -> B,`
     fn fold<B, F: Foreign2<B, T, B>>(self, init: B, f: &mut F) -> (ret: B)
         requires
             self.wf(),
@@ -372,7 +371,7 @@ impl<T, N: ArrayLength> GenericArrayIter<T, N> {
                 let __cnt = remaining.hi - remaining.lo;
                 let mut acc = init;
                 let mut __k: usize = 0;
-                while __k < __cnt invariant this.wf(), remaining.lo == i0, remaining.hi == b0, __cnt == rem0.len(), i0 + __cnt == b0, __k <= __cnt, this.index == i0 + __k, this.index_back == b0, forall|j: int| 0 <= j < __cnt - __k ==> this.remaining()[j] == rem0[__k + j], f.log().len() == __k, forall|j: int| 0 <= j < __k ==> (#[trigger] f.log()[j]).1 == rem0[j], __k == 0 ==> acc == init, __k > 0 ==> f.log()[0].0 == init && acc == f.log().last().2, forall|j: int| 0 < j < __k ==> (#[trigger] f.log()[j]).0 == f.log()[j - 1].2, decreases __cnt - __k, {
+                while __k < __cnt invariant index_back == b0, this.wf(), remaining.lo == i0, remaining.hi == b0, __cnt == rem0.len(), i0 + __cnt == b0, __k <= __cnt, this.index == i0 + __k, this.index_back == b0, forall|j: int| 0 <= j < __cnt - __k ==> this.remaining()[j] == rem0[__k + j], f.log().len() == __k, forall|j: int| 0 <= j < __k ==> (#[trigger] f.log()[j]).1 == rem0[j], __k == 0 ==> acc == init, __k > 0 ==> f.log()[0].0 == init && acc == f.log().last().2, forall|j: int| 0 < j < __k ==> (#[trigger] f.log()[j]).0 == f.log()[j - 1].2, decreases __cnt - __k, {
                     let src = (remaining.lo + __k);
                     let ghost before = this.remaining();
                     let value = this.array.take(src);
@@ -418,7 +417,7 @@ impl<T, N: ArrayLength> GenericArrayIter<T, N> {
                 let __cnt = remaining.hi - remaining.lo;
                 let mut acc = init;
                 let mut __k: usize = 0;
-                while __k < __cnt invariant this.wf(), remaining.lo == i0, remaining.hi == b0, __cnt == rem0.len(), i0 + __cnt == b0, __k <= __cnt, this.index == i0, this.index_back == b0 - __k, forall|j: int| 0 <= j < __cnt - __k ==> this.remaining()[j] == rem0[j], f.log().len() == __k, forall|j: int| 0 <= j < __k ==> (#[trigger] f.log()[j]).1 == rem0[rem0.len() - 1 - j], __k == 0 ==> acc == init, __k > 0 ==> f.log()[0].0 == init && acc == f.log().last().2, forall|j: int| 0 < j < __k ==> (#[trigger] f.log()[j]).0 == f.log()[j - 1].2, decreases __cnt - __k, {
+                while __k < __cnt invariant index == i0, this.wf(), remaining.lo == i0, remaining.hi == b0, __cnt == rem0.len(), i0 + __cnt == b0, __k <= __cnt, this.index == i0, this.index_back == b0 - __k, forall|j: int| 0 <= j < __cnt - __k ==> this.remaining()[j] == rem0[j], f.log().len() == __k, forall|j: int| 0 <= j < __k ==> (#[trigger] f.log()[j]).1 == rem0[rem0.len() - 1 - j], __k == 0 ==> acc == init, __k > 0 ==> f.log()[0].0 == init && acc == f.log().last().2, forall|j: int| 0 < j < __k ==> (#[trigger] f.log()[j]).0 == f.log()[j - 1].2, decreases __cnt - __k, {
                     let src = (remaining.hi - 1 - __k);
                     let ghost before = this.remaining();
                     let value = this.array.take(src);
@@ -443,7 +442,7 @@ impl<T, N: ArrayLength> GenericArrayIter<T, N> {
 }
 
 impl<T: ForeignClone, N: ArrayLength> GenericArrayIter<T, N> {
-    // extracted from src/iter.rs:63  `fn clone(&self) -> Self`
+    // extracted from src/iter.rs:67  `fn clone(&self) -> Self`
     fn clone(&self) -> (r: Self)
         requires
             self.wf(),
@@ -478,7 +477,7 @@ impl<T: ForeignClone, N: ArrayLength> GenericArrayIter<T, N> {
 // rule R-slots: the consumed GenericArray<T, N> is a fully live Slots block
 pub fn manually_drop_new<T, N: ArrayLength>(a: Slots<T, N>) -> (r: Slots<T, N>) ensures r == a { a }
 
-    // extracted from src/iter.rs:35  `fn into_iter(self) -> Self::IntoIter`
+    // extracted from src/iter.rs:39  `fn into_iter(self) -> Self::IntoIter`
     fn into_iter<T, N: ArrayLength>(this: Slots<T, N>) -> (r: GenericArrayIter<T, N>)
         requires
             this.ok(),
